@@ -1,4 +1,4 @@
-use self::expression::expression;
+use self::expression::{expression, expression_after, starts_blob_instance};
 use self::statement::outer_statement;
 use std::collections::{BTreeMap, HashMap, HashSet};
 use std::fmt::{Debug, Display};
